@@ -36,6 +36,12 @@ def quiet(fn, *a, **k):
         return fn(*a, **k)
 
 
+# attributes that depend on the number of nodes of the network part (grouped into one failure per
+# history for constructor variants, see the known finding C01-rn-missing-values)
+NETPART = ("N", "adjacency", "n_links", "link_density", "node_weights", "sp_A", "graph",
+           "total_node_weight", "mean_node_weight",
+           # RQA measures normalise by / scan up to self.N, which the network part overwrites
+           "recurrence_rate()", "determinism()", "laminarity()")
 SCALARS = ("directed", "N", "M", "n_links", "link_density")
 ARRAYS = ("adjacency", "node_weights", "R", "sp_A")
 
@@ -87,7 +93,12 @@ def run_history(spec, rng, hist, eval_summary):
     obj = None
     for kind, what in hist:
         if kind == "ctor":
-            obj = quiet(spec["make"], rng) if what is None else quiet(spec["make"], rng, what)
+            if what is None:
+                obj = quiet(spec["make"], rng)
+            elif isinstance(what, dict):        # a constructor variant: keyword arguments of make
+                obj = quiet(spec["make"], rng, **what)
+            else:
+                obj = quiet(spec["make"], rng, what)
         else:
             quiet(spec["mutators"][what], obj, rng)
         for expr in spec["summary"]:
@@ -102,7 +113,7 @@ def run_history(spec, rng, hist, eval_summary):
 def structural_histories(ctx, cname, spec, quick, eval_summary, same, brief):
     rng = ctx.rng
     names = sorted(spec["mutators"])
-    modes = [None] + list(spec.get("ctor_modes", []))
+    modes = [None] + list(spec.get("ctor_modes", [])) + list(spec.get("ctor_variants", []))
     hists = []
     for m in modes:
         for o in names:
@@ -131,23 +142,38 @@ def structural_histories(ctx, cname, spec, quick, eval_summary, same, brief):
                  {"class": cname, "history": label})
         ctx.count(f"{cname}:structural-histories")
         so, st = structure(obj), structure(tw)
+        variant = hist[0][1].get("variant") if isinstance(hist[0][1], dict) else None
+        netpart = []
         for k in sorted(set(so) | set(st)):
             a, b = so.get(k, "<absent>"), st.get(k, "<absent>")
             if not (_same_scalar(a, b) if not isinstance(a, tuple) else a == b):
+                if variant is not None and k in NETPART:
+                    netpart.append((k, a, b))     # one failure per history (below)
+                    continue
                 ctx.fail({"kind": "stale-structure", "class": cname, "attribute": k,
-                          "mutator": label[-1], "after": label[-2]},
+                          "mutator": label[-1], "after": label[-2], "variant": variant},
                          f"{cname}.{k} after {label} is {a!r} but a fresh object given the current "
                          f"inputs has {b!r}",
                          {"class": cname, "attribute": k, "history": label,
                           "observed": repr(a), "fresh": repr(b)})
+        if netpart:
+            ctx.fail({"kind": "stale-structure", "class": cname, "attribute": "network-part",
+                      "mutator": label[-1], "after": label[-2], "variant": variant},
+                     f"{cname}: size-dependent network attributes after {label} differ from a fresh "
+                     f"object given the current inputs: " +
+                     "; ".join(f"{k} {a!r} vs {b!r}" for k, a, b in netpart),
+                     {"class": cname, "history": label,
+                      "differences": [[k, repr(a), repr(b)] for k, a, b in netpart]})
         for expr in spec["summary"]:
+            if variant is not None and expr in NETPART:
+                continue        # compared structurally above
             try:
                 a, b = eval_summary(obj, expr), eval_summary(tw, expr)
             except Exception:  # noqa
                 continue
             if not same(a, b):
                 ctx.fail({"kind": "stale-summary", "class": cname, "attribute": expr,
-                          "mutator": label[-1], "after": label[-2]},
+                          "mutator": label[-1], "after": label[-2], "variant": variant},
                          f"{cname}.{expr} after {label} is {brief(a)} but a fresh object reports "
                          f"{brief(b)}",
                          {"class": cname, "attribute": expr, "history": label,
